@@ -1,6 +1,11 @@
 import PyYetiVerif.Lemmas.Extrema
 import PyYetiVerif.Model.ExtremaMerge
 import Mathlib.Data.List.Nodup
+import Mathlib.Algebra.Field.Basic
+import Mathlib.Algebra.CharZero.Defs
+import Mathlib.Algebra.BigOperators.Group.List.Basic
+import Mathlib.Tactic.FieldSimp
+import Mathlib.Tactic.Ring
 import Mathlib.Algebra.Order.Group.Defs
 import Mathlib.Algebra.Order.Group.Unbundled.Basic
 /-! Helper lemmas for C16: the frf pipeline is the time pipeline with a mirrored minimum column. -/
@@ -301,5 +306,15 @@ theorem calcBest_eq_runTr (better : α → α → Bool) (t : Tr α Unit L) (ts :
     · exact h u (by simp [hu])
 
 end calcext
+
+section stat
+variable {α : Type} [Field α] [CharZero α]
+
+theorem mean_replicate (n : Nat) (hn : n ≠ 0) (c : α) : mean (List.replicate n c) = c := by
+  have : (n : α) ≠ 0 := Nat.cast_ne_zero.2 hn
+  simp [mean, List.sum_replicate]
+  field_simp
+
+end stat
 
 end PyYetiVerif.Extrema
